@@ -11,6 +11,9 @@ def run(ctx):
     ctx.prove()
     if not ctx.build():
         return
+    # a harness unit that reaches into an interface of the tree (Network / Tensor / reader and writer functions) may not compile against it after a
+    # harmless renaming: whole calls through the public entry point, compared bit for bit with the model, are then the tie (DESIGN.md 4.5)
+    ctx.fallback_e2e = lambda: [gen.gen_e2e(ctx.rng.fork('fb%d' % k), 950000 + k, maxit_max=25, r_max=2)[0] for k in range(ctx.budget(160, 2000))]
     rng = ctx.rng
     cases, info = [], {}
     cid = 0
